@@ -524,6 +524,24 @@ fn c08_session(ctx: &Ctx, idx: usize, seeds: &[String]) {
                     positions: vec![pg.positions[cut].clone()],
                 }
             }
+            // the same position once more, as a bare FEN with OTHER counters (an analysis GUI that
+            // lets the user edit the move number or the fifty-move counter): the counters of the
+            // command count, not those of the position that happens to be on the board
+            (Some(pg), 7) => {
+                let mut p = pg.last().clone();
+                p.half = *rng.pick(&[0u32, 1, 7, 49, 50, 97, 98, 99]);
+                if p.ep >= 0 {
+                    p.half = 0;
+                }
+                p.full = 1 + rng.below(300) as u32;
+                out::count("C08.same_position_with_other_counters", 1);
+                Game {
+                    start_fen: p.fen(),
+                    is_startpos: false,
+                    moves: vec![],
+                    positions: vec![p],
+                }
+            }
             // now and then a very long game: a position command of several kilobytes, rarely of
             // more than 16 KB
             _ if rng.chance(1, 60) => random_game(&mut rng, seeds, 1_100, false),
@@ -741,7 +759,7 @@ impl Limits {
 fn random_limits(rng: &mut Rng) -> Limits {
     let mut l = Limits::default();
     let pick = |rng: &mut Rng, v: &[u64]| Some(*rng.pick(v));
-    match rng.below(12) {
+    match rng.below(13) {
         0 => l.depth = Some(1 + rng.below(4)),
         1 => l.nodes = pick(rng, &[1, 2, 3, 5, 10, 20, 50, 100, 300, 1000, 5000, 20000, 50000, 200_000, 1_000_000, 3_000_000]),
         2 => l.movetime = pick(rng, &[0, 1, 2, 5, 10, 20, 50, 100, 300]),
@@ -796,6 +814,18 @@ fn random_limits(rng: &mut Rng) -> Limits {
                 l.wtime = pick(rng, &[0, 1, 10, 100, 3000]);
             } else {
                 l.btime = pick(rng, &[0, 1, 10, 100, 3000]);
+            }
+        }
+        11 => {
+            // a clock together with a node budget or a movetime that would take far longer than
+            // the clock allows: the earliest limit ends the search
+            let c = *rng.pick(&[20u64, 100, 400, 2000]);
+            l.wtime = Some(c);
+            l.btime = Some(c);
+            if rng.chance(1, 2) {
+                l.nodes = pick(rng, &[30_000_000, 400_000_000, 4_000_000_000]);
+            } else {
+                l.movetime = pick(rng, &[20_000, 600_000]);
             }
         }
         _ => l.depth = Some(1 + rng.below(3)),
@@ -934,6 +964,10 @@ fn go_session(ctx: &Ctx, idx: usize, seeds: &[String], prop: &str) {
             "k7/8/1K6/8/8/8/8/7R w - - 0 1",
             "8/8/8/8/8/5k2/4p3/4K3 w - - 0 1",
             "k7/P7/K7/8/8/8/8/8 b - - 0 1",
+            // the opponent's army is frozen: the reply to every root move has no pseudo-legal move
+            "4brkb/3p1pbp/3P1p1p/5P1P/8/8/4K3/1N6 w - - 0 1",
+            "3k4/6n1/8/8/5p1p/3p1P1P/3P1PBP/4BRKB b - - 0 1",
+            "4brkb/3p1pbp/3P1p1p/5P1P/8/p7/8/1K6 w - - 0 1",
             "8/8/8/8/8/8/6k1/4K2R b K - 0 1",
         ];
         let fen = (*rng.pick(&tiny)).to_string();
@@ -946,6 +980,15 @@ fn go_session(ctx: &Ctx, idx: usize, seeds: &[String], prop: &str) {
         if g.last().legal_moves().is_empty() {
             return;
         }
+    }
+    if prop == "C09" && idx % 10 == 9 {
+        // the session begins with a go on a finished game (mate or stalemate on the board); what
+        // the engine answers there is not judged, but every go after it must be served as usual
+        let fen = *rng.pick(&["7k/5K2/6Q1/8/8/8/8/8 b - - 0 1", "R5k1/5ppp/8/8/8/8/5PPP/6K1 b - - 0 1", "7k/5Q2/6K1/8/8/8/8/8 b - - 0 1", "K1k5/P7/8/8/8/8/8/8 w - - 0 1"]);
+        e.send(&format!("position fen {fen}"));
+        e.send(*rng.pick(&["go depth 2", "go movetime 10", "go nodes 50", "go wtime 100 btime 100"]));
+        let _ = e.wait_out(400, "bestmove");
+        out::count("C09.sessions_starting_with_a_go_on_a_finished_game", 1);
     }
     e.send(&g.command());
     if prop == "C14" && idx < 2 {
@@ -1412,9 +1455,20 @@ fn c14_isready_storm(ctx: &Ctx, idx: usize, e: &mut Engine, g: &Game, rng: &mut 
     e.skip_to_end();
     let from = e.log.len();
     e.send(&format!("go depth {depth}"));
+    // one storm in three also announces new games while the search runs (every second line), one
+    // in three mostly does that: whatever ucinewgame resets must not tear a report apart
+    let kind = idx / 5 % 3;
     let mut burst = String::new();
-    for _ in 0..n {
+    for k in 0..n {
         burst.push_str("isready\n");
+        if kind == 1 && k % 2 == 0 {
+            burst.push_str("ucinewgame\n");
+        } else if kind == 2 {
+            burst.push_str("ucinewgame\nucinewgame\nucinewgame\n");
+        }
+    }
+    if kind > 0 {
+        out::count("C14.storms_with_ucinewgame", 1);
     }
     e.send_raw(burst.as_bytes());
     let got_bm = e.wait_since(from, 30_000, |ev| ev.src == Src::Out && ev.line.starts_with("bestmove")).is_some();
@@ -1831,6 +1885,66 @@ fn c15_long_lived(ctx: &Ctx, idx: usize) {
     let _ = e.wait_exit(2_000);
 }
 
+/// One process that thinks a lot: a dozen searches of 1.5 million nodes each on different
+/// positions (the cache grows to well over a million entries, as in a long game), with a liveness
+/// probe after each. Whatever the engine does to bound its memory must not wedge or kill it.
+fn c15_heavy_cache(ctx: &Ctx, idx: usize) {
+    let Some(mut e) = spawn(ctx, &[]) else { return };
+    let fens = corpus::bench_fens();
+    if fens.is_empty() {
+        return;
+    }
+    let rounds = if ctx.tier == "thorough" { 24 } else { 12 };
+    let mut done = 0u64;
+    for r in 0..rounds {
+        let fen = &fens[(r * 7 + 3) % fens.len()];
+        let from = e.log.len();
+        e.send(&format!("position fen {fen}"));
+        e.send("go nodes 1500000");
+        if e.wait_since(from, 90_000, |ev| ev.src == Src::Out && ev.line.starts_with("bestmove")).is_none() {
+            // no answer to a go: is the engine still alive and talking?
+            e.send("isready");
+            if e.wait_since(from, READY_TIMEOUT_MS, |ev| ev.src == Src::Out && ev.line == "readyok").is_none() {
+                out::violation(
+                    "C15",
+                    "killed[long-lived session, large cache]",
+                    format!("round {r} of a session of 1.5-million-node searches: 'go nodes 1500000' got neither a bestmove nor, after it, a readyok; stderr: {:?}", e.stderr_lines(from).iter().rev().take(2).collect::<Vec<_>>()),
+                    replay_json("C15", idx, &e),
+                );
+                e.kill();
+                return;
+            }
+            out::inconclusive("C15 heavy-cache session: a go was not answered in 90 s although the engine is alive (C09's business)", 1);
+            break;
+        }
+        e.send("isready");
+        out::count("C15.evaluations", 1);
+        if e.wait_since(from, READY_TIMEOUT_MS, |ev| ev.src == Src::Out && ev.line == "readyok").is_none() {
+            out::violation(
+                "C15",
+                "killed[long-lived session, large cache]",
+                format!("no readyok after round {r} of a session of 1.5-million-node searches; stderr: {:?}", e.stderr_lines(from).iter().rev().take(2).collect::<Vec<_>>()),
+                replay_json("C15", idx, &e),
+            );
+            e.kill();
+            return;
+        }
+        done += 1;
+    }
+    out::count("C15.heavy_cache_rounds", done);
+    let rss_kb = std::fs::read_to_string(format!("/proc/{}/status", e.pid()))
+        .ok()
+        .and_then(|t| t.lines().find(|l| l.starts_with("VmRSS:")).and_then(|l| l.split_whitespace().nth(1).and_then(|x| x.parse::<u64>().ok())));
+    if let Some(kb) = rss_kb {
+        out::set_max("C15.max_resident_kb_after_heavy_session", kb);
+    }
+    e.send("quit");
+    if e.wait_exit(EXIT_TIMEOUT_MS).is_none() {
+        out::violation("C15", "no-exit-on-quit", "engine still running 3000 ms after quit at the end of a session of 1.5-million-node searches".to_string(), replay_json("C15", idx, &e));
+        e.kill();
+    }
+}
+
 /// go on positions where nothing is legal (mate, stalemate), with young and old clocks.
 fn c15_terminal(ctx: &Ctx, idx: usize, rng: &mut Rng) {
     let Some(mut e) = spawn(ctx, &[]) else { return };
@@ -1883,6 +1997,10 @@ fn c15_session(ctx: &Ctx, idx: usize, seeds: &[String]) {
     }
     if idx % 16 == 5 {
         c15_terminal(ctx, idx, &mut rng);
+        return;
+    }
+    if idx == 2 {
+        c15_heavy_cache(ctx, idx);
         return;
     }
     let Some(mut e) = spawn(ctx, &[]) else { return };
